@@ -1,5 +1,6 @@
 import A5.Lemmas.BoundarySkel
 import A5.Lemmas.PentagonConvex2
+import A5.Lemmas.SplitEdges
 import Mathlib.Tactic.Linarith
 import Mathlib.Algebra.Order.Field.Basic
 import Mathlib.Algebra.Order.Field.Rat
@@ -293,5 +294,23 @@ theorem planar_triangle_ccw_centre_inside (m : Rat × Rat × Rat × Rat) (hd : 0
 example : 0 < PG.areaG 0 (PG.placedQ ⟨1, (3, 0), (1, -1)⟩ (1 / 8) (3 / 5, -(4 / 5), 4 / 5, 3 / 5)) :=
   (planar_ring_ccw_convex_centre_inside ⟨1, (3, 0), (1, -1)⟩ (Or.inr (Or.inl rfl)) (1 / 8) (by decide +kernel)
     (3 / 5, -(4 / 5), 4 / 5, 3 / 5) (by decide +kernel)).1
+
+/-! ## the subdivided planar ring (exact arithmetic on the runtime constants, every n) -/
+
+open A5.PG A5.HilbertLocate in
+/-- `planar_split_ring`: for the pentagon of every anchor at every positive scale and every matrix of positive determinant,
+and EVERY subdivision `n ≥ 1`: the split ring has `5n` points, the pentagon's area (positive: `PentagonShape::new` keeps the
+order), the pentagon's corners at the indices `i·n` - "the corner points are the same points for every n" in the plane -,
+the centre strictly inside with margin `∝ 1/n`, and all its points on the pentagon's closed boundary side of every edge. -/
+theorem planar_split_ring (a : Anchor) (hF : IsFlip a.flips) (s : Rat) (hs : 0 < s)
+    (m : Rat × Rat × Rat × Rat) (hd : 0 < detG m) (n : Nat) (hn : 1 ≤ n) :
+    (splitQ (placedQ a s m) n).length = 5 * n ∧
+    areaG 0 (splitQ (placedQ a s m) n) = areaG 0 (placedQ a s m) ∧
+    0 < areaG 0 (splitQ (placedQ a s m) n) ∧
+    polyNewG 0 (splitQ (placedQ a s m) n) = splitQ (placedQ a s m) n ∧
+    (∀ i, i < 5 → (splitQ (placedQ a s m) n)[i * n]? = (placedQ a s m)[i]?) ∧
+    InsideBy 0 (detG m * (s * s) * (96 / 1000) / (n : Rat)) (splitQ (placedQ a s m) n) (centreG 0 5 (placedQ a s m)) := by
+  obtain ⟨h1, h2, _, h4, h5, h6, h7, _⟩ := placedQ_split a hF s hs m hd n hn
+  exact ⟨h1, h2, h4, h5, fun i hi => (h6 i hi).1, h7⟩
 
 end A5.C11
